@@ -9,7 +9,7 @@
    (d) the structure of the typed tree determines the same declarations the direct derivation starts from
        (per instance: the grammar derived from the printed typed tree is compared with spec.Parse's). *)
 From Coq Require Import String List Bool Arith NArith.
-From Verif Require Import Cfg.LR Cfg.LRSafe Cfg.Ebnf Emerge.SpecModel Emerge.TypedTree Emerge.TypedSpec.
+From Verif Require Import Cfg.LR Cfg.LRSafe Cfg.LRComplete Cfg.LRCanon Cfg.LRExact Cfg.EbnfDoc Cfg.EbnfCert Cfg.Ebnf Emerge.SpecModel Emerge.TypedTree Emerge.TypedSpec.
 From VerifGen Require Import TableGo.
 Import ListNotations.
 
@@ -25,6 +25,36 @@ Proof.
   exact (lr_sound_init ebnf_grammar ebnf_table ebnf_eof ebnf_err_state ebnf_start ebnf_past Hs toks fin Hn fuel tr Hr).
 Qed.
 Print Assumptions generic_tree_reflects_the_tokens.
+
+(* the nesting of the generic tree is the documented reading of the tokens (juxtaposition tighter than `|`, juxtaposition
+   to the left, `|` to the right, greedy handles: Cfg/EbnfDoc.v), it is the only tree with that property, and every
+   tree with that property is built when its tokens are parsed *)
+Theorem generic_tree_has_the_documented_nesting :
+  forall toks fin fuel tr,
+    ~ In ebnf_eof toks ->
+    run ebnf_grammar ebnf_table ebnf_eof ebnf_err_state toks fin fuel init = (tr, OAccept) ->
+    exists t, build ebnf_grammar toks tr = [t] /\ canonical_sentence ebnf_grammar ebnf_start ebnf_rules toks t /\
+              forall t', canonical_sentence ebnf_grammar ebnf_start ebnf_rules toks t' -> t' = t.
+Proof.
+  intros toks fin fuel tr Hn Hr.
+  assert (Hs : safe_check ebnf_grammar ebnf_table ebnf_eof ebnf_err_state ebnf_start ebnf_past = true) by (vm_compute; reflexivity).
+  destruct (exact_builds_canonical ebnf_grammar ebnf_table ebnf_eof ebnf_err_state ebnf_start ebnf_past ebnf_rules
+              ebnf_Wany ebnf_W ebnf_E Hs ebnf_canon_check toks fin fuel tr Hn Hr) as [t [Hc [_ Hb]]].
+  exists t. split; [exact Hb|]. split; [exact Hc|].
+  intros t' Hc'. exact (exact_unique ebnf_grammar ebnf_table ebnf_eof ebnf_err_state ebnf_start ebnf_rules
+                           ebnf_nul ebnf_first ebnf_V ebnf_complete_check toks t' t Hc' Hc).
+Qed.
+Print Assumptions generic_tree_has_the_documented_nesting.
+
+Theorem every_documented_reading_is_built :
+  forall toks t, canonical_sentence ebnf_grammar ebnf_start ebnf_rules toks t ->
+    exists fuel, run ebnf_grammar ebnf_table ebnf_eof ebnf_err_state toks EndOfInput fuel init = (post t, OAccept).
+Proof.
+  intros toks t Ht. exists (S (length (post t))).
+  apply (exact_complete ebnf_grammar ebnf_table ebnf_eof ebnf_err_state ebnf_start ebnf_rules ebnf_nul ebnf_first ebnf_V
+           ebnf_complete_check toks t Ht). apply Nat.lt_succ_diag_r.
+Qed.
+Print Assumptions every_documented_reading_is_built.
 
 Theorem juxtaposition_operands_in_written_order x y :
   ast_value (ECat x y) = TConcat (map ast_value (cat_operands (ECat x y))).
